@@ -7,13 +7,17 @@
    CorePhase2AcctK, CorePhase2AcctCrash, CorePhase2AcctOwn, CorePhase2AcctOwnAct, CorePhase2AcctOwnLoop,
    CorePhase2AcctOwnWait, CorePhase2AcctOwnTop, [CorePhase2Fd family of p2-fd], CorePhase2AcctNc, CorePhase2AcctNcLoop,
    CorePhase2AcctNcWait, CorePhase2AcctNcTop, CorePhase2AcctIdle, CorePhase2AcctIdleLoop, CorePhase2AcctIdleWait,
-   CorePhase2AcctIdleTv, CorePhase2AcctIdleTop, CorePhase2Acct. *)
+   CorePhase2AcctIdleTv, CorePhase2AcctIdleTop, CorePhase2AcctSpin, CorePhase2AcctSpinLoop, CorePhase2AcctQuiet,
+   CorePhase2AcctCq, CorePhase2AcctCqAct, CorePhase2AcctCqLoop, CorePhase2AcctCqWait, CorePhase2AcctK0,
+   CorePhase2AcctSpinEnt, CorePhase2AcctSpinWait, CorePhase2AcctSpinPoll, CorePhase2AcctSpinTop, CorePhase2AcctC07,
+   CorePhase2Acct. *)
 From Coq Require Import List ZArith Bool Lia.
 From Ivv Require Import Core.Kernel Core.CoreTypes Core.CoreFd Core.CoreModel Core.Monitors Core.GuardMon Core.CoreSpec
   Core.CoreRel.
 From Ivv Require Export Core.CorePhase2AcctTr Core.CorePhase2AcctTr2 Core.CorePhase2AcctMon Core.CorePhase2AcctMon2
   Core.CorePhase2AcctFd Core.CorePhase2AcctAct Core.CorePhase2AcctLoop Core.CorePhase2AcctTear Core.CorePhase2AcctEnd
-  Core.CorePhase2AcctEv Core.CorePhase2AcctEvLoop Core.CorePhase2AcctWait Core.CorePhase2AcctK Core.CorePhase2AcctCrash Core.CorePhase2AcctOwnTop Core.CorePhase2AcctNcTop Core.CorePhase2AcctIdleTop.
+  Core.CorePhase2AcctEv Core.CorePhase2AcctEvLoop Core.CorePhase2AcctWait Core.CorePhase2AcctK Core.CorePhase2AcctCrash Core.CorePhase2AcctOwnTop Core.CorePhase2AcctNcTop Core.CorePhase2AcctIdleTop Core.CorePhase2AcctSpinTop
+  Core.CorePhase2AcctC07.
 Import ListNotations.
 Local Open Scope Z_scope.
 
@@ -44,6 +48,8 @@ Check core_code_1801. Check core_code_1804.                        (* CorePhase2
 Check core_code_1802.                                              (* CorePhase2AcctOwnTop.v *)
 Check core_code_707.                                               (* CorePhase2AcctNcTop.v *)
 Check core_gmon_1103.                                              (* CorePhase2AcctIdleTop.v *)
+Check core_code_711.                                               (* CorePhase2AcctSpinTop.v *)
+Check core_mon_C07.                                                (* CorePhase2AcctC07.v *)
 Check core_mon_C18.
 Print Assumptions core_code_701.
 Print Assumptions core_code_702.
@@ -56,4 +62,6 @@ Print Assumptions core_code_1804.
 Print Assumptions core_code_1802.
 Print Assumptions core_code_707.
 Print Assumptions core_gmon_1103.
+Print Assumptions core_code_711.
+Print Assumptions core_mon_C07.
 Print Assumptions core_mon_C18.
